@@ -371,6 +371,10 @@ func (ms *Modules) Process() []error {
 	// made by the same caller.
 	ms.mergedSubmodule = map[string]bool{}
 	ms.ClearEntryCache()
+	// Types may have been resolved before now (an Entry asked for before
+	// Process, an earlier Process of fewer modules), against imports and
+	// identities that were not there yet. Every run resolves them afresh.
+	ms.forgetResolvedTypes()
 
 	errs := ms.process()
 	if len(errs) > 0 {
